@@ -61,6 +61,29 @@ def decide(prop: str, repo: Repo, tier: str = "quick"):
             rep2.notes = [f"NOTE: {len(unlisted)} alarm(s) of the spelling-level rules discharged: {len(eq['functions_proven'])} changed function(s) proven equivalent to the reference "
                           f"({', '.join(eq['functions_proven'][:6])}{'...' if len(eq['functions_proven']) > 6 else ''})"]
             return rep2
+    # not everything is equivalent: judge a hybrid tree in which the changed functions that *are* proven equivalent to the
+    # reference take their reference spelling (same behaviour as the current tree), the others stay as they are
+    try:
+        overlay, proven, not_proven = refcheck.hybrid_overlay(repo, repo.consulted)
+    except Exception as e:  # noqa: BLE001
+        overlay, proven, not_proven = None, [], [f"hybrid failed: {type(e).__name__}: {e}"]
+    if overlay is not None and proven:
+        hyb = Repo(repo.root, overlay=overlay)
+        rep3, err3 = _run(mod, prop, hyb, tier)
+        unl3 = [o for o in rep3.violations() if o.key not in open_keys]
+        better = (err3 is None) and (err is not None or len({o.key for o in unl3}) < len({o.key for o in unlisted}) or (rep.deferred and not rep3.deferred))
+        if better:
+            gone = sorted({o.key for o in unlisted} - {o.key for o in unl3})
+            rep3.extra["discharged_by_equivalence"] = {
+                "functions_proven_equivalent": proven,
+                "functions_not_proven": not_proven[:10],
+                "alarms_discharged": gone + ([f"analysis-error: {err}"] if err else []),
+                "rule": "the verdict is taken on a hybrid tree: functions proven equivalent to their reference version (canonical effect sequences) are "
+                        "replaced by that version; all other functions are judged as they stand",
+            }
+            rep3.notes = [f"NOTE: {len(gone)} alarm(s) discharged on a hybrid tree: {len(proven)} changed function(s) proven equivalent to the reference "
+                          f"({', '.join(proven[:5])}{'...' if len(proven) > 5 else ''}); line numbers below refer to the hybrid source"]
+            return rep3
     rep.extra["equivalence_attempt"] = {"equivalent": False, "blocking": eq.get("blocking", [])[:8]}
     if err is not None:
         raise err
